@@ -164,8 +164,8 @@ _upd('C03', text_add="Also: Poly1305 limb arithmetic except the 130x128-bit prod
 _upd('C08', text="Partial: (1) symbolic execution of the real __eq__/__ne__ of RsaKey, DsaKey, ElGamalKey and EccKey on objects built from independent symbolic components, incl. ECC keys on different curves with equal scalars: z3 decides 'equal <=> same type, same privacy and same components'.  (2) export -> import round trips in the binary formats: ECC DER (SPKI, RFC 5915, PKCS#8 in clear) and SEC1 uncompressed for every private scalar with 0..1 (2) leading zero bytes and every seed, X25519/X448 SPKI; import(export(k)) == k with privacy, curve, scalar/seed preserved.  (3) PBES2: decrypt(encrypt(data)) == data for every PBKDF2-PRF x cipher combination and every scrypt scheme with data, passphrase, salt and IV symbolic (PRF OID table, AEAD tag placement, padding travel through the DER AlgorithmIdentifier).",
      note="RSA / DSA export-import (their importers run the full consistency checks: symbolic only at toy width, see C05), the PEM / OpenSSH text layer (base64 of symbolic bytes is not modelled), SEC1 compressed and EdDSA public keys (decompression needs a modular square root), PBES1, wrong-passphrase refusal (not derivable over uninterpreted ciphers) and an external parser as oracle are outside.  EC points over the abstract group; an exception from == counts as 'not equal'.")
 _upd('C09', text_add="Segmentations with an EMPTY middle piece while a partial block is cached are included for every AEAD stream.")
-_upd('C10', text_add="Also: after a WRONG tag (verify / decrypt_and_verify raise ValueError) only verify() remains possible -- every follow-up call; OCB with its explicit final no-argument encrypt()/decrypt() (9 methods); CCM with assoc_len/msg_len declared, pieces counted against the declaration (too much / too little data -> ValueError).  An exception of any other type (e.g. an escaping AssertionError) is a violation.",
-     note="Depth 3 (EAX 2) plus selected depth-4/5 paths in quick; depth 4 (GCM 5) exhaustively in thorough; argument lengths cycle through 1, 16, 17, 0.  SIV and hash/XOF/MAC objects are not part of this check (their streaming behaviour is C09); deeper histories are outside (no abstraction-soundness argument); behaviour after a ValueError for too much / too little declared CCM data is not followed.  Primitives uninterpreted as in C01.")
+_upd('C10', text_add="Also: after a WRONG tag (verify / decrypt_and_verify raise ValueError) only verify() remains possible -- every follow-up call; OCB with its explicit final no-argument encrypt()/decrypt() (9 methods); CCM with assoc_len/msg_len declared, pieces counted against the declaration (too much / too little data -> ValueError).  An exception of any other type (e.g. an escaping AssertionError) is a violation.  Hash / XOF / MAC objects (17 classes: SHAKE, cSHAKE, TurboSHAKE, SHA-3, keccak, BLAKE2, KMAC, TupleHash, CMAC, Poly1305, HMAC, SHA-1/2, MD5): every update / output sequence up to depth 4 (5) -- update after the first output raises TypeError where documented and leaves no trace, reads continue the one-shot stream, digests are idempotent.",
+     note="Depth 3 (EAX 2) plus selected depth-4/5 paths in quick; depth 4 (GCM 5) exhaustively in thorough; argument lengths cycle through 1, 16, 17, 0.  SIV, KangarooTwelve and copy() inside the sequences (C19) are not part of this check; deeper histories are outside (no abstraction-soundness argument); behaviour after a ValueError for too much / too little declared CCM data is not followed.  Primitives uninterpreted as in C01.")
 _upd('C11', text_add="ChaCha20: sequences of seek()/encrypt() on the real C of src/chacha20.c -- every call returns the key stream for its position (reference: the real code's own output after a direct seek on a fresh object; that single block == RFC 8439 is decided in C02) or fails; it must fail beyond the counter range and, once failed, keep failing until a successful seek (no silent restart from block 0); ChaCha20.seek() in Python for every position up to 136 bits incl. negative ones; CCM: every declared msg_len, with and without assoc_len, against the q = 15 - len(nonce) limit; GCM: one encrypt() step from an arbitrary mid-life byte count against 2^36 - 32 bytes.",
      note="cipher->encrypt is the uninterpreted E; <= 5 calls of <= 9 blocks+1 per object; mid-life states assume the representation invariant.  ChaCha20 block indexes: fully symbolic below a carry of the low counter word, solver-enumerated in windows of 4 next to the carry and the end of the counter range; the last block index is refused by the implementation (conservative, allowed by the oracle).  Python-level ChaCha20/CCM/GCM checks run over the C contract models (ctypes c_ulong truncation modelled).  GCM decrypt() has no limit of its own (observed; not anchored).  HPKE nonce distinctness is decided under C15.")
 _upd('C13', text_add="Grammar-based ECC key files (SPKI, RFC 5915, PKCS#8, EdDSA/XDH SPKI and PKCS#8): well-formed DER whose EC point / private scalar / raw key has every length around the expected one and symbolic content: a key or ValueError, never another exception.",
